@@ -31,5 +31,68 @@ def fabs(x):
     return abs(x)
 
 
+def copysign(x, y):
+    if isinstance(x, Sym) or isinstance(y, Sym):
+        mag = abs(x)
+        # the sign of y decides; y == 0.0 counts as positive (a real zero has no sign: the -0.0 case is invisible to the proof)
+        return mag if y >= 0 else -mag
+    return _math.copysign(x, y)
+
+
+def hypot(*xs):
+    if any(isinstance(x, Sym) for x in xs):
+        tot = 0
+        for x in xs:
+            tot = tot + x * x
+        return S.sqrt(tot)
+    return _math.hypot(*xs)
+
+
+def isclose(a, b, rel_tol=1e-09, abs_tol=0.0):
+    if isinstance(a, Sym) or isinstance(b, Sym):
+        d = abs(a - b)
+        return bool((d <= rel_tol * abs(a)) | (d <= rel_tol * abs(b)) | (d <= abs_tol))
+    return _math.isclose(a, b, rel_tol=rel_tol, abs_tol=abs_tol)
+
+
+def isnan(x):
+    return False if isinstance(x, Sym) else _math.isnan(x)
+
+
+def isinf(x):
+    return False if isinstance(x, Sym) else _math.isinf(x)
+
+
+def isfinite(x):
+    return True if isinstance(x, Sym) else _math.isfinite(x)
+
+
+def acos(x):
+    if isinstance(x, Sym):
+        raise S.Unsupported("math.acos of a symbolic value")
+    return _math.acos(x)
+
+
+def asin(x):
+    if isinstance(x, Sym):
+        raise S.Unsupported("math.asin of a symbolic value")
+    return _math.asin(x)
+
+
+def floor(x):
+    if isinstance(x, Sym):
+        raise S.Unsupported("math.floor of a symbolic value")
+    return _math.floor(x)
+
+
+def ceil(x):
+    if isinstance(x, Sym):
+        raise S.Unsupported("math.ceil of a symbolic value")
+    return _math.ceil(x)
+
+
+tau = 2 * pi
+
+
 def __getattr__(name):
     raise S.Unsupported("math.%s is not modelled by the symbolic shim" % name)
